@@ -114,7 +114,7 @@ fn ro_mix_case<const N: usize>() {
     }
     kani::cover!(true);
 }
-// @harness props=C10 kind=bounded bound=N=2,r=1 tier=thorough timeout=1500
+// @attempt (not run: no verdict in 25 min, and kani-driver buffers the run's CBMC messages: 36 GB after 22 min, 60 GB at the end) props=C10 kind=bounded bound=N=2,r=1 tier=thorough timeout=1500
 #[kani::proof]
 #[kani::stub(salsa20_8, tag_core)]
 #[kani::unwind(130)]
